@@ -4,7 +4,7 @@ from vlib import Unit, Query, Runner
 KINDS = ['enumerate(lvalue vector)', 'enumerate(const vector)', 'enumerate(temporary vector)', 'enumerate(lvalue std::array)', 'enumerate(temporary std::array)', 'enumerate(built-in array)',
          'enumerate(initializer list)', 'enumerate(lvalue fixed_vector)', 'enumerate(lvalue map)', 'enumerate(one-element built-in array)', 'reverse(lvalue vector)', 'reverse(const vector)',
          'reverse(temporary vector)', 'reverse(lvalue std::array)', 'reverse(temporary std::array)', 'reverse(built-in array)', 'reverse(initializer list)', 'reverse(lvalue fixed_vector)',
-         'reverse(lvalue set)', 'reverse(temporary fixed_vector)']
+         'reverse(lvalue set)', 'reverse(temporary fixed_vector)', 'enumerate(lvalue vector), hand-written loop with postfix ++', 'enumerate(lvalue vector), while loop with *it++']
 FIXED = {3, 4, 5, 6, 9, 13, 14, 15, 16}
 
 
